@@ -308,6 +308,18 @@ func (s *S) Run() Result {
 				waited += inspectAfter
 				// not a verdict from elapsed time: look at what the goroutine is doing
 				state, stack := goroutineState(pick.gid)
+				if isBlockingState(state) {
+					// confirm on a second dump: transient states must not be mistaken for blocking
+					time.Sleep(5 * time.Millisecond)
+					if st2, _ := goroutineState(pick.gid); st2 != state {
+						continue
+					}
+					select {
+					case <-s.ctl:
+						break wait
+					default:
+					}
+				}
 				if isBlockingState(state) || waited >= stuckAfter {
 					s.cur = nil
 					res.StuckThread, res.StuckState, res.StuckStack = pick.id, state, stack
@@ -357,7 +369,7 @@ func goroutineState(gid string) (state, stack string) {
 
 func isBlockingState(st string) bool {
 	switch st {
-	case "sync.Mutex.Lock", "sync.RWMutex.Lock", "sync.RWMutex.RLock", "semacquire", "chan receive", "chan send", "select", "sync.Cond.Wait", "sync.WaitGroup.Wait":
+	case "sync.Mutex.Lock", "sync.RWMutex.Lock", "sync.RWMutex.RLock", "chan receive", "chan send", "select", "sync.Cond.Wait", "sync.WaitGroup.Wait":
 		return true
 	}
 	return false
